@@ -72,7 +72,8 @@ def repr_dps(n):
     a number with n-bit precision so that it can be uniquely
     reconstructed from the representation."""
     dps = prec_to_dps(n)
-    if dps == 15:
+    if dps == 15 and n <= 53:
+        # 17 digits identify a double; at 54 bits (also dps == 15) they do not
         return 17
     return dps + 3
 
